@@ -93,6 +93,12 @@ def process_message_fn(src, msg_src):
             c, ty = expr_to_gallina(src, s.test, env)
             if ty != 'bool':
                 src.fail(s, 'non-boolean test')
+            inner = [x for x in s.body if not _is_log(x)]
+            if not s.orelse and len(inner) == 1 and isinstance(inner[0], ast.Assign):
+                # `if <fresh>: self.start_dpd_at = ...` (fix of F23): the timer is re-armed only under the condition
+                if ast.unparse(inner[0]) != 'self.start_dpd_at = time.time() + self.configuration.dpd' or dpd:
+                    src.fail(s, 'unexpected conditional assignment in process_message')
+                return f'(if {c} then {block(stmts[1:], True)} else {block(stmts[1:], False)})'
             then = block(s.body, dpd)
             els = block(s.orelse + stmts[1:] if not s.orelse else s.orelse, dpd) if (s.orelse or stmts[1:]) else None
             if s.orelse and stmts[1:]:
